@@ -907,3 +907,130 @@ Example sadd_srem_smove_ex :
   cmd_smove 50 d [s2b "a"; s2b "a"; s2b "7"] = (d, RInt 0) /\
   cmd_sadd 50 d [s2b "a"; s2b "1"] = (d, RInt 0).
 Proof. vm_compute. repeat split; reflexivity. Qed.
+
+(* ------------------------------------------------------------------ *)
+(* 6. SINTERCARD                                                       *)
+(* ------------------------------------------------------------------ *)
+
+Lemma firstn_skipn_app {A} (l1 l2 : list A) :
+  firstn (List.length l1) (l1 ++ l2) = l1 /\ skipn (List.length l1) (l1 ++ l2) = l2.
+Proof.
+  induction l1 as [|x l1 [IH1 IH2]]; simpl; [split; reflexivity|].
+  rewrite IH1, IH2. split; reflexivity.
+Qed.
+
+(* numkeys keys..., optionally LIMIT lim; [lim = 0] means "no limit" *)
+Theorem sintercard_spec now d nk keys tail lim :
+  keys <> [] ->
+  parse_i64 nk = Some (Zlen keys) ->
+  (tail = [] /\ lim = 0 \/
+   exists l v, tail = [l; v] /\ is_kw l "LIMIT" = true /\ parse_i64 v = Some lim /\ 0 <= lim) ->
+  (forall k, In k keys -> ~ wrong_set now d k) ->
+  let c := Zlen (sinter_l (map (members now d) keys)) in
+  cmd_sintercard now d (nk :: keys ++ tail) =
+    (d, RInt (if lim =? 0 then c else Z.min lim c)).
+Proof.
+  intros Hne Hnk Htail Hw c.
+  assert (set_operands now d keys = Some (map (members now d) keys)) as Hs.
+  { apply set_operands_some. split; [exact Hw|reflexivity]. }
+  destruct (setop_operands_agree OpInter now d keys _ Hs) as [ops' [Ho Hf]].
+  simpl in Ho, Hf.
+  unfold cmd_sintercard. rewrite Hnk.
+  assert (0 < Zlen keys) as Hpos.
+  { destruct keys as [|k0 r0]; [congruence|]. rewrite Zlen_cons. pose proof (Zlen_nonneg r0). lia. }
+  destruct (Zlen keys <=? 0) eqn:E1; [apply Z.leb_le in E1; lia|].
+  assert (Zlen (keys ++ tail) <? Zlen keys = false) as E2.
+  { apply Z.ltb_ge. rewrite Zlen_app. pose proof (Zlen_nonneg tail). lia. }
+  rewrite E2. cbv zeta.
+  assert (Z.to_nat (Zlen keys) = List.length keys) as Hn by (unfold Zlen; apply Nat2Z.id).
+  rewrite Hn. destruct (firstn_skipn_app keys tail) as [Hfi Hsk]. rewrite Hfi, Hsk.
+  assert (Hfin : forall l0, 0 <= l0 ->
+            (if l0 <? 0 then (d, err "ERR LIMIT can't be negative")
+             else match set_operands_until_missing now d keys with
+                  | Some ops => let c0 := Zlen (sinter_l ops) in
+                                (d, RInt (if (0 <? l0) && (l0 <? c0) then l0 else c0))
+                  | None => (d, wrongtype)
+                  end) = (d, RInt (if l0 =? 0 then c else Z.min l0 c))).
+  { intros l0 Hl0. destruct (l0 <? 0) eqn:E3; [apply Z.ltb_lt in E3; lia|].
+    rewrite Ho. cbv zeta. rewrite Hf. fold c. f_equal. f_equal.
+    destruct (l0 =? 0) eqn:E4.
+    - apply Z.eqb_eq in E4. subst l0. reflexivity.
+    - apply Z.eqb_neq in E4. assert (0 <? l0 = true) as E5 by (apply Z.ltb_lt; lia).
+      rewrite E5. cbn [andb]. destruct (l0 <? c) eqn:E6.
+      + apply Z.ltb_lt in E6. lia.
+      + apply Z.ltb_ge in E6. lia. }
+  destruct Htail as [[Ht Hl]|[l [v [Ht [Hkw [Hv Hl]]]]]]; subst tail.
+  - subst lim. apply (Hfin 0). lia.
+  - rewrite Hkw, Hv. apply Hfin. exact Hl.
+Qed.
+Print Assumptions sintercard_spec.
+
+Example sintercard_ex :
+  cmd_sintercard 50 ex_sets [s2b "2"; s2b "a"; s2b "b"] = (ex_sets, RInt 2) /\
+  cmd_sintercard 50 ex_sets [s2b "2"; s2b "a"; s2b "b"; s2b "LIMIT"; s2b "1"] = (ex_sets, RInt 1) /\
+  cmd_sintercard 50 ex_sets [s2b "2"; s2b "a"; s2b "b"; s2b "limit"; s2b "5"] = (ex_sets, RInt 2) /\
+  cmd_sintercard 50 ex_sets [s2b "2"; s2b "a"; s2b "b"; s2b "LIMIT"; s2b "0"] = (ex_sets, RInt 2) /\
+  snd (cmd_sintercard 50 ex_sets [s2b "2"; s2b "a"; s2b "b"; s2b "LIMIT"; s2b "-1"]) = err "ERR LIMIT can't be negative".
+Proof. vm_compute. repeat split; reflexivity. Qed.
+
+(* ------------------------------------------------------------------ *)
+(* 7. error inertness                                                  *)
+(* ------------------------------------------------------------------ *)
+
+Ltac inert_hyp :=
+  repeat match goal with
+         | H : context [match ?x with _ => _ end] |- _ => destruct x
+         end; cbn [fst snd] in *; try reflexivity; try discriminate.
+
+Theorem set_error_inert now d args s :
+  (snd (cmd_sadd now d args) = RErr s -> fst (cmd_sadd now d args) = d) /\
+  (snd (cmd_srem now d args) = RErr s -> fst (cmd_srem now d args) = d) /\
+  (snd (cmd_scard now d args) = RErr s -> fst (cmd_scard now d args) = d) /\
+  (snd (cmd_sismember now d args) = RErr s -> fst (cmd_sismember now d args) = d) /\
+  (snd (cmd_smismember now d args) = RErr s -> fst (cmd_smismember now d args) = d) /\
+  (snd (cmd_smembers now d args) = RErr s -> fst (cmd_smembers now d args) = d) /\
+  (snd (cmd_smove now d args) = RErr s -> fst (cmd_smove now d args) = d) /\
+  (snd (cmd_srandmember now d args) = RErr s -> fst (cmd_srandmember now d args) = d) /\
+  (forall o, snd (cmd_setop o now d args) = RErr s -> fst (cmd_setop o now d args) = d) /\
+  (forall o, snd (cmd_setop_store o now d args) = RErr s -> fst (cmd_setop_store o now d args) = d) /\
+  (snd (cmd_sintercard now d args) = RErr s -> fst (cmd_sintercard now d args) = d).
+Proof.
+  repeat split; intros.
+  - unfold cmd_sadd in *. inert_hyp.
+  - unfold cmd_srem in *. inert_hyp.
+  - unfold cmd_scard in *. inert_hyp.
+  - unfold cmd_sismember in *. inert_hyp.
+  - unfold cmd_smismember in *. inert_hyp.
+  - unfold cmd_smembers in *. inert_hyp.
+  - unfold cmd_smove in *. inert_hyp.
+  - unfold cmd_srandmember in *. inert_hyp.
+  - apply setop_db_unchanged.
+  - unfold cmd_setop_store in *. cbv zeta in *. inert_hyp.
+  - unfold cmd_sintercard in *. cbv zeta in *. inert_hyp.
+Qed.
+Print Assumptions set_error_inert.
+
+(* the pure set commands never change the db at all *)
+Theorem set_reads_pure now d args :
+  fst (cmd_scard now d args) = d /\ fst (cmd_sismember now d args) = d /\
+  fst (cmd_smismember now d args) = d /\ fst (cmd_smembers now d args) = d /\
+  fst (cmd_srandmember now d args) = d /\ (forall o, fst (cmd_setop o now d args) = d) /\
+  fst (cmd_sintercard now d args) = d.
+Proof.
+  unfold cmd_scard, cmd_sismember, cmd_smismember, cmd_smembers, cmd_srandmember, cmd_sintercard.
+  repeat split; intros; try apply setop_db_unchanged; cbv zeta;
+    repeat match goal with
+           | |- context [match ?x with _ => _ end] => destruct x
+           end; reflexivity.
+Qed.
+Print Assumptions set_reads_pure.
+
+Example set_error_ex :
+  let d := ex_sets in
+  cmd_sadd 50 d [s2b "str"; s2b "x"] = (d, wrongtype) /\
+  cmd_smove 50 d [s2b "a"; s2b "str"; s2b "1"] = (d, wrongtype) /\
+  cmd_setop_store OpUnion 50 d [s2b "a"; s2b "b"; s2b "str"] = (d, wrongtype) /\
+  cmd_setop_store OpInter 50 d [s2b "a"] = (d, argerr) /\
+  cmd_sintercard 50 d [s2b "3"; s2b "a"; s2b "b"] =
+    (d, err "ERR Number of keys can't be greater than number of args").
+Proof. vm_compute. repeat split; reflexivity. Qed.
